@@ -221,6 +221,26 @@ def r2_rejection_effect_free(R) -> None:
         raises = [n for n in cfg.nodes if n.kind == 'stmt' and isinstance(n.ast, ast.Raise)]
         up = _upfront_raises(cfg, starts, raises)
         R.expect(q, len(up), 4, 'up-front rejections (ValueError, IndexErrors, SolutionError)')
+        # a period that cannot accommodate the lags / leads is one of them: rejected before anything is copied or handed to the
+        # engine (in the Fortran wrapper the engine reports it as well, codes 11-14, but only after the offset copy has been made)
+        def _pos(nid_, nm_, cfg=cfg, fi=fi):
+            if nm_ == 't':
+                return False
+            defs_ = [x for x in ast.walk(fi.node) if isinstance(x, (ast.Assign, ast.AugAssign)) and any(isinstance(t_, ast.Name) and t_.id == nm_
+                     for t_ in (x.targets if isinstance(x, ast.Assign) else [x.target]))]
+            return bool(defs_) and all((isinstance(x, ast.Assign) and text(x.value) == 't') or
+                                       (isinstance(x, ast.AugAssign) and isinstance(x.op, ast.Add) and text(x.value) in ('len(self.span)', "len(self.__dict__['span'])"))
+                                       for x in defs_) and any(isinstance(x, ast.AugAssign) for x in defs_)
+        feas = _feasibility(cfg, q, None, R, q, 'self.lags', ['len(self.span) - 1 - self.leads', "len(self.__dict__['span']) - 1 - self.leads"], _pos, None)
+        from fsa.flow import guards as _gf
+        for which in ('lags', 'leads'):
+            tests_ = [n_ for (w_, n_) in feas if w_ == which]
+            early = [r_ for r_ in up if raised_class(r_.ast) == 'IndexError' and any((n_.id, 'T') in _gf(cfg, r_.id) for n_ in tests_)]
+            R.check(bool(early), q, f'feasibility-rejected-up-front:{which}',
+                    f'a period that cannot accommodate the {which} is rejected (IndexError) before the work on the period starts',
+                    f'no up-front IndexError for a period that cannot accommodate the model\'s {which}: the call is rejected only after the offset copy has been made '
+                    f'(and, in the Fortran wrapper, after the values have been handed to the engine) - a rejected call must leave everything unchanged',
+                    where=fi.where)
         # the rejection of contradictory iteration limits is one of them: it must not come after the work has started
         from fsa.flow import guards as _g
         late = []
